@@ -112,7 +112,7 @@ theorem invRet_init : InvRet {} := by
 
 set_option hygiene false in
 macro "log_close" : tactic => `(tactic| (
-  all_goals (try (rcases hout with ⟨hout, hsc'⟩ | ⟨hout, hsc'⟩))
+  split_mod
   all_goals (try (simp [returnNow, startRequest, fireAndForget, State.nextId, quietAfterRet,
     Phase.isReturned, Phase.early, List.countP_cons, -List.countP_eq_zero] at *))
   all_goals (try (simp only [hws, haw, hrun, hout] at *))
@@ -189,7 +189,7 @@ theorem invProg_init : InvProg {} := by
 
 set_option hygiene false in
 macro "prog_close" : tactic => `(tactic| (
-  all_goals (try (rcases hout with ⟨hout, hsc'⟩ | ⟨hout, hsc'⟩))
+  split_mod
   all_goals (try (simp [returnNow, startRequest, fireAndForget, State.nextId, progressMsgs, handedMsgs] at *))
   all_goals (try (simp only [hws, haw, hrun, hout] at *))
   all_goals (try (simp [progressMsgs, handedMsgs] at *))
@@ -258,7 +258,7 @@ theorem invCancelMode_init (cfg : Cfg) : InvCancelMode cfg {} := by
 
 set_option hygiene false in
 macro "cancel_close" : tactic => `(tactic| (
-  all_goals (try (rcases hout with ⟨hout, hsc'⟩ | ⟨hout, hsc'⟩))
+  split_mod
   all_goals (try (simp [returnNow, startRequest, fireAndForget, State.nextId, cancelsOf, List.countP_cons,
     -List.countP_eq_zero] at *))
   all_goals (try (simp only [hws, haw, hrun, hout, hdrawn, hidg] at *))
